@@ -43,6 +43,7 @@ SNIPPET_FILE = (
     "void res(void) { FILE *f = fopen(\"x\", \"r\"); fgetc(f); fclose(f); }\n"
     "int w2(int a) { if (a == 1 && a == 2) return 1; return 0; }\n"
     "void pf1(const char *s) { size_t n = 0; for (size_t i = 0; i < strlen(s); i++) n++; }\n"
+    "void term(const char *p) { char buf[10]; strncpy(buf, p, 10); (void)buf[0]; }\n"
     "// cppcheck-suppress doesNotExist\n"
     "int dup(int a) { return a; }\n"
 )
